@@ -1718,6 +1718,10 @@ class Entity(Instance):
         )
 
     def _port_map(self) -> TextBlock:
+        if len(self._ports) == 0:
+            # an empty port clause is not valid VHDL
+            return TextBlock([])
+
         return TextBlock(title="port (", content=[self._port_declarations(), ");"])
 
     def _library_declaration(self) -> TextBlock:
@@ -2018,7 +2022,8 @@ class EntityInst(Instance):
 
     def _port_map(self) -> list[str]:
         if len(self._ports) == 0:
-            return []
+            # no port map, only terminate the instantiation statement
+            return [";"]
 
         port_map: list[Tuple[str, str]] = []
 
